@@ -229,6 +229,17 @@ func Each(doc []byte, limit int, f func(Mutant) bool) {
 			}
 			emit(p, "string-separators-only", set(root, p, func(any) (any, bool) { return ":/:@-", true }))
 		}
+		if a, ok := cur.([]any); ok {
+			// runs of nulls (one null is the plain "null" fault of an element): at the start, in the middle, at the end
+			emit(p, "two-nulls-only", set(root, p, func(any) (any, bool) { return []any{nil, nil}, true }))
+			if len(a) > 0 {
+				mid := len(a) / 2
+				emit(p, "adjacent-nulls-inside", set(root, p, func(any) (any, bool) {
+					return append(append(append([]any{}, a[:mid]...), nil, nil, nil), a[mid:]...), true
+				}))
+				emit(p, "adjacent-nulls-at-end", set(root, p, func(any) (any, bool) { return append(append([]any{}, a...), nil, nil), true }))
+			}
+		}
 		if a, ok := cur.([]any); ok && len(a) > 0 {
 			emit(p, "duplicated-element", set(root, p, func(any) (any, bool) { return append(append([]any{}, a...), deepCopy(a[0])), true }))
 		}
